@@ -7,7 +7,7 @@
 //!
 //! now keep_pack keep_delete cacheable_only unc all noresize instant mu_kind mu_val mr_kind mr_val
 //! tree_target tree_min tree_max data_target data_min data_max
-//! nused id*  nexisting (pack size)*  nfiles { file_id npacks PACK* ndel PACK* }
+//! nused (tpe id)*  nexisting (pack size)*  nfiles { file_id npacks PACK* ndel PACK* }
 //! PACK := pack_id size time_flag [time] nblobs { blob_id tpe(0 tree,1 data) length compressed(0/1) }
 //!
 //! The end-to-end histories are in c02_e2e.rs.
@@ -70,7 +70,9 @@ fn plan_case(line: &str) -> String {
         *s = (t.u() as u32, t.u() as u32, t.u() as u32);
     }
     let nu = t.u();
-    let used: Vec<BlobId> = (0..nu).map(|_| BlobId::from(id_from_u64(t.u()))).collect();
+    let used: Vec<(BlobType, BlobId)> = (0..nu)
+        .map(|_| (if t.u() == 0 { BlobType::Tree } else { BlobType::Data }, BlobId::from(id_from_u64(t.u()))))
+        .collect();
     let ne = t.u();
     let existing: Vec<(PackId, u32)> = (0..ne).map(|_| (PackId::from(id_from_u64(t.u())), t.u() as u32)).collect();
     let nf = t.u();
@@ -107,7 +109,7 @@ fn plan_case(line: &str) -> String {
             let m: Vec<String> = o.modified.iter().map(|(i, b)| format!("{}:{}", u(i), u8::from(*b))).collect();
             let r: Vec<String> = o.rewritten.iter().map(|i| format!("{}", u(i))).collect();
             let un: Vec<String> = o.unreferenced.iter().map(|(p, s)| format!("{}:{}", u(p), s)).collect();
-            let l: Vec<String> = o.used_left.iter().map(|i| format!("{}", u(i))).collect();
+            let l: Vec<String> = o.used_left.iter().map(|(t, i)| format!("{}:{}", match t { None => "x", Some(BlobType::Tree) => "0", Some(BlobType::Data) => "1" }, u(i))).collect();
             format!(
                 "ok d={} mod={} rw={} unref={} left={} stats={},{},{},{},{},{},{},{},{},{},{},{},{},{},{}",
                 d.join(","), m.join(","), r.join(","), un.join(","), l.join(","),
